@@ -22,14 +22,24 @@
         -> failure_surfaces (map: the caller receives exactly the results of the tasks before the first
            failing one, then its error; batch: the run is that error, no collection is returned)
    * "models containing NumPy arrays and dense or sparse tensors arriving in the workers unchanged"
-        -> shm_roundtrip (decode (encode t) = t for every tree and every content of the blocks beyond the
-           payload, zero-length payloads included); whole_buffer_refuted: without the recorded length the
-           statement is false.  Tensors travel through torch's own reducers (contract; content hashes are
-           computed inside the workers by the harness).
+        -> shm_roundtrip: for every tree whose arrays are well formed (one element per index, a fixed item
+           size, an axis permutation and its inverse), every memory layout of every array -- C order, Fortran
+           order, any axis permutation of a C-ordered block (out of band), strided / broadcast (in band) --
+           and every content of the blocks beyond the payload (zero-length payloads included),
+           decode (encode t) = arrived t, and arrived t has the content of t (only the layout tag of an array
+           that travelled in band differs: it arrives C-ordered);
+           layout_roundtrip: the index arithmetic behind it, for all shapes and axis permutations;
+           whole_buffer_refuted: without the recorded length the statement is false; fortran_block: the
+           block of a Fortran-ordered array is NOT its index order, so a rebuild that drops the order is wrong;
+           transport_rules (GENERATED shape): SHMPickler.reducer_override intercepts tensors and tensor
+           storages only -- arrays are left to NumPy's own reduction, whose contract (which layouts travel
+           out of band, in which byte order) is the model's `encode` and is compared with every observed block.
+           Tensors travel through torch's own reducers (contract; content hashes are computed inside the
+           workers by the harness).
    * "and the worker pool is released afterwards" -> release_order (shape only; child processes and
      shared-memory segments are counted after every pool case by the harness). *)
 From Coq Require Import ZArith List Bool String.
-From LK Require Import Model.C12_shapes Gen.C12_shape Model.C12_pool Proofs.C12_pool Proofs.C12_shm Proofs.C12_batch.
+From LK Require Import Model.C12_shapes Gen.C12_shape Model.C12_pool Proofs.C12_pool Proofs.C12_layout Proofs.C12_shm Proofs.C12_batch.
 Import ListNotations.
 Open Scope list_scope.
 
@@ -102,10 +112,29 @@ Theorem failure_surfaces :
 Proof. split; [exact @consume_first_error|exact @failure_surfaces_l]. Qed.
 Print Assumptions failure_surfaces.
 
-Theorem shm_roundtrip : forall (pad : nat -> list nat) (t : tree),
-  shm_deserialize shm_slice (shm_serialize pad t) = Some t.
+Theorem shm_roundtrip : forall (pad : nat -> list nat) (t : tree), wf_tree t = true ->
+  shm_deserialize shm_slice (shm_serialize pad t) = Some (arrived t) /\ contents (arrived t) = contents t.
 Proof. exact shm_roundtrip_l. Qed.
 Print Assumptions shm_roundtrip.
+
+(* the elements of A = M.transpose(p), written out in the order of M's memory and read back through the
+   inverse index map, are the elements of A: all shapes, all axis permutations p with inverse q *)
+Theorem layout_roundtrip : forall (p q s : list nat) (elems : list (list nat)),
+  perm_ok (List.length s) p q -> List.length elems = prod s -> from_memory q s (to_memory p q s elems) = elems.
+Proof. exact from_to_memory. Qed.
+Print Assumptions layout_roundtrip.
+
+Theorem fortran_block :
+  wf_tree f23 = true /\
+  map (view SliceRecorded) (snd (shm_serialize (fun _ => [0; 0]) f23)) = [[1; 4; 2; 5; 3; 6]] /\
+  shm_deserialize shm_slice (shm_serialize (fun _ => [0; 0]) f23) = Some f23 /\
+  chunk 1 6 [1; 4; 2; 5; 3; 6] <> [[1]; [2]; [3]; [4]; [5]; [6]].
+Proof. exact fortran_block_l. Qed.
+Print Assumptions fortran_block.
+
+Theorem transport_rules : reducer_dispatch = [RTensorCSR; RTensorCSC; RTensorTorch; RStorageTorch; ROwnReduction].
+Proof. reflexivity. Qed.
+Print Assumptions transport_rules.
 
 Theorem whole_buffer_refuted :
   shm_deserialize WholeBuffer (shm_serialize (fun _ => [0; 0; 0]) (TNode [TBuf [1; 2; 3; 4; 5]])) <> Some (TNode [TBuf [1; 2; 3; 4; 5]]).
@@ -142,3 +171,13 @@ Proof.
   cbv zeta. split; [|vm_compute; reflexivity].
   intros req [H|[H|[H|[]]]]; subst; vm_compute; reflexivity.
 Qed.
+
+(* a model with a C-ordered vector, a Fortran-ordered 2 x 3 matrix, a 2 x 3 x 2 array with permuted axes, a
+   strided array (in band), an empty array and a raw buffer: well formed, and it comes back *)
+Example c12_layout_nonvacuous :
+  let t := TNode [TArr (OutOfBand [0] [0]) 2 [3] [[1; 0]; [2; 0]; [3; 0]]; f23;
+                  TArr (OutOfBand [1; 2; 0] [2; 0; 1]) 1 [2; 3; 2] (map (fun k => [k]) (seq 0 12));
+                  TArr InBand 1 [2; 2] [[9]; [8]; [7]; [6]]; TArr (OutOfBand [1; 0] [1; 0]) 4 [0; 3] []; TBuf [5; 5]; TAtom 3] in
+  wf_tree t = true /\ arrived t <> t /\
+  shm_deserialize shm_slice (shm_serialize (fun i => repeat 0 i) t) = Some (arrived t).
+Proof. cbv zeta. repeat split; try (vm_compute; reflexivity). vm_compute. discriminate. Qed.
